@@ -50,6 +50,39 @@ type cmpStats struct {
 }
 
 // comparePayload checks a decoded package against the reference plan.
+// canary numeric ids given to sources on the build host (when running as root)
+const (
+	canaryUID = 23456
+	canaryGID = 34567
+)
+
+// chownSources hands every source file and directory of the case to the canary
+// ids (modes and mtimes are put back: chown clears setuid/setgid). Returns the
+// number of nodes changed; 0 when not running as root.
+func chownSources(c *gen.Case) int {
+	if os.Geteuid() != 0 {
+		return 0
+	}
+	n := 0
+	for _, nd := range c.Tree.Sorted() {
+		if !strings.HasPrefix(nd.Rel, "src/") || (nd.Kind != "file" && nd.Kind != "dir") {
+			continue
+		}
+		p := c.Tree.Abs(nd.Rel)
+		st, err := os.Lstat(p)
+		if err != nil || st.Mode()&os.ModeSymlink != 0 {
+			continue
+		}
+		if os.Lchown(p, canaryUID, canaryGID) != nil {
+			continue
+		}
+		_ = os.Chmod(p, st.Mode())
+		_ = os.Chtimes(p, st.ModTime(), st.ModTime())
+		n++
+	}
+	return n
+}
+
 func comparePayload(run *ev.Run, prop string, c *gen.Case, f string, pkg *dec.Package, plan map[string]*gen.PlanEntry, st *cmpStats) {
 	viol := func(kind string, detail map[string]any) {
 		detail["case"] = c.Index
@@ -69,6 +102,11 @@ func comparePayload(run *ev.Run, prop string, c *gen.Case, f string, pkg *dec.Pa
 			continue
 		}
 		seen[e.Path] = true
+		// numeric ids cannot be declared: the canary ids some sources are given on
+		// the build host must not show up anywhere
+		if e.UID == canaryUID || e.GID == canaryGID {
+			viol("build-host-ids-in-package/"+e.Kind, map[string]any{"path": e.Path, "uid": e.UID, "gid": e.GID, "owner": e.Owner, "group": e.Group})
+		}
 		pe := plan[e.Path]
 		if pe == nil {
 			viol("extra-entry/"+e.Kind, map[string]any{"path": e.Path, "stored": e.Stored})
@@ -180,7 +218,7 @@ func c01(run *ev.Run, tier string) {
 	var mu sync.Mutex
 	perFormat := map[string]int64{}
 	crossPairs := int64(0)
-	rebuilt := int64(0)
+	rebuilt, chowned := int64(0), int64(0)
 	comp := map[string]int64{}
 	useCLI := tier == "thorough"
 	parallel(n, 8, func(i int) {
@@ -205,6 +243,11 @@ func c01(run *ev.Run, tier string) {
 		// every deb/rpm compression setting is exercised round-robin
 		c.Spec.Deb.Compression = []string{"", "gzip", "xz", "zstd", "none"}[i%5]
 		c.Spec.RPM.Compression = []string{"", "gzip", "gzip:1", "gzip:9", "xz", "lzma", "zstd", "zstd:1", "zstd:19"}[i%9]
+		if i%3 == 1 && chownSources(c) > 0 {
+			mu.Lock()
+			chowned++
+			mu.Unlock()
+		}
 		y := c.Spec.YAML()
 		ntypes := 0
 		for ft := range c.Features {
@@ -218,8 +261,9 @@ func c01(run *ev.Run, tier string) {
 		}
 		var lst cmpStats
 		sigs := map[string]map[string]string{}
-		for _, f := range formats {
-			res := buildYAML(y, f)
+		order, sharedCfg, build := buildPlan(i, y, c.Spec, formats)
+		for _, f := range order {
+			res := build(f)
 			if res.Panic != "" {
 				run.Violate("C01/"+f+"/panic", map[string]any{"case": i, "panic": ev.Short(res.Panic, 800)})
 				continue
@@ -280,10 +324,10 @@ func c01(run *ev.Run, tier string) {
 			mu.Lock()
 			rebuilt++
 			mu.Unlock()
-			for _, f := range formats {
-				res := buildYAML(y, f)
+			for _, f := range order {
+				res := build(f)
 				if res.Err != nil || res.Panic != "" {
-					run.Violate("C01/"+f+"/rebuild-error", map[string]any{"case": i, "error": fmt.Sprint(res.Err, ev.Short(res.Panic, 300))})
+					run.Violate("C01/"+f+"/rebuild-error", map[string]any{"case": i, "one_parsed_config": sharedCfg, "error": fmt.Sprint(res.Err, ev.Short(res.Panic, 300))})
 					continue
 				}
 				pkg := dec.Decode(f, res.Bytes, false)
@@ -335,6 +379,7 @@ func c01(run *ev.Run, tier string) {
 	run.Set("entries_decoded_per_format", perFormat)
 	run.Set("cross_format_pairs_compared", crossPairs)
 	run.Set("cases_rebuilt_after_source_change", rebuilt)
+	run.Set("cases_with_sources_owned_by_canary_ids", chowned)
 	run.Set("compression_settings_seen", comp)
 	run.Set("external_decoders", map[string]bool{"xz_cli_crosscheck": useCLI && have("xz")})
 	run.Assume("the harness decoders (raw tar walker, ar, gzip member splitter, rpm header + cpio newc parser, klauspost zstd decoder, ulikunitz xz/lzma decoders) read the formats correctly")
